@@ -89,6 +89,19 @@ class MappingSub2(DerivedMapping):
 NT = collections.namedtuple("NT", "a b")
 
 
+class StrMapping(str):
+    """A str subclass that is (registered as) a Mapping: scalar by one test, mapping by another."""
+
+    def keys(self):
+        return []
+
+    def __getitem__(self, k):
+        return str.__getitem__(self, k)
+
+
+cabc.Mapping.register(StrMapping)
+
+
 class Neither:
     def __iter__(self):
         return iter([1])
@@ -182,6 +195,18 @@ def pool(with_numpy=True):
     p["userlist"] = lambda: collections.UserList([1])
     p["deque"] = lambda: collections.deque([1, 2])
     p["bothms"] = lambda: BothMS({"x": 1, "y": 2})
+    # multi-category values whose ACCEPTANCE depends on which category wins (non-str / dotted keys are only seen when the
+    # value is walked as a mapping)
+    p["bothms_intkeys"] = lambda: BothMS({1: "x"})
+    p["bothms_dotkeys"] = lambda: BothMS({"a.b": 1})
+    p["bothms_nested_bad"] = lambda: {"row": BothMS({2: {"z": {1, 2}}})}
+    p["strmapping"] = lambda: StrMapping("sm")
+    # rejected values nested three containers deep (bookkeeping on the error path of recursive validators)
+    p["nested_bad_set"] = lambda: {"a": [{"b": {1, 2}}]}
+    p["nested_bad_complex"] = lambda: [[[1 + 2j]]]
+    p["nested_bad_obj"] = lambda: {"a": {"b": [object()]}}
+    p["nested_bad_intkey"] = lambda: {"a": [{"b": {1: 2}}]}
+    p["deep_valid"] = lambda: {"a": {"b": {"c": {"d": [1, [2, [3, {"e": "f"}]]]}}}}
     p["neither_iterable"] = lambda: Neither()
     p["dictkeys"] = lambda: {"a": 1}.keys()
     p["dictvalues"] = lambda: {"a": 1}.values()
